@@ -457,9 +457,13 @@ def r_par_consume(F, V):
         cut = set()
         for j in b.normal:
             if _is_exhaustion_branch(b, j):
-                for v, bb in b.term(j)["targets"]:
+                tj = b.term(j)
+                vals = [v for v, _ in tj["targets"]]
+                for v, bb in tj["targets"]:
                     if v == 0:
                         cut.add((j, bb))
+                if 0 not in vals and 1 in vals and tj.get("otherwise") is not None:
+                    cut.add((j, tj["otherwise"]))   # `[1: some, otherwise: none]`
         seen, work = {0}, [0]
         while work:
             x = work.pop()
